@@ -1,6 +1,7 @@
 mod ch;
 mod corpus;
 mod decode;
+mod edits;
 mod gen;
 mod interp;
 mod iso;
@@ -124,6 +125,44 @@ fn main() {
                 }
             }
             println!("generated {} modules, {} invalid, avg ops {}, avg size {}", n, bad, total_ops / n, sizes / n);
+        }
+        Some("emit-hash") => {
+            let path = args.get(2).cloned().unwrap_or_else(|| usage());
+            let bytes = std::fs::read(path).unwrap();
+            match props::c08::emit_hash(&bytes) {
+                Some(h) => println!("{}", h),
+                None => println!("none"),
+            }
+        }
+        Some("dbg-names") => {
+            // print the name sections of out1 = emit(parse(in)) and out2 = emit(parse(out1))
+            let path = args.get(2).cloned().unwrap_or_else(|| usage());
+            let synthetic = args.get(3).map(|s| s == "synthetic").unwrap_or(false);
+            let bytes = if path.ends_with(".wat") { wat::parse_file(&path).unwrap() } else { std::fs::read(path).unwrap() };
+            let cfg = wal::Cfg { synthetic_names: synthetic, ..wal::Cfg::plain() }.to_config();
+            let mut m1 = cfg.parse(&bytes).unwrap();
+            let b1 = m1.emit_wasm();
+            let mut m2 = cfg.parse(&b1).unwrap();
+            let b2 = m2.emit_wasm();
+            for (n, b) in [("in", &bytes), ("out1", &b1), ("out2", &b2)] {
+                println!("== {} ({} bytes)", n, b.len());
+                for p in wasmparser::Parser::new(0).parse_all(b) {
+                    if let Ok(wasmparser::Payload::CustomSection(s)) = p {
+                        if s.name() == "name" {
+                            let r = wasmparser::NameSectionReader::new(wasmparser::BinaryReader::new(s.data(), s.data_offset(), wasmparser::WasmFeatures::all()));
+                            for sub in r {
+                                match sub {
+                                    Ok(wasmparser::Name::Function(m)) => println!("  funcs: {:?}", m.into_iter().map(|n| n.map(|n| (n.index, n.name.to_string())).unwrap()).collect::<Vec<_>>()),
+                                    Ok(wasmparser::Name::Local(m)) => for f in m { let f = f.unwrap(); println!("  locals of {}: {:?}", f.index, f.names.into_iter().map(|n| n.map(|n| (n.index, n.name.to_string())).unwrap()).collect::<Vec<_>>()); },
+                                    Ok(wasmparser::Name::Type(m)) => println!("  types: {:?}", m.into_iter().map(|n| n.map(|n| (n.index, n.name.to_string())).unwrap()).collect::<Vec<_>>()),
+                                    Ok(_) => println!("  other subsection"),
+                                    Err(e) => println!("  err {}", e),
+                                }
+                            }
+                        }
+                    }
+                }
+            }
         }
         Some("dump") => {
             // write the wasm a replay file denotes to stdout path
